@@ -493,6 +493,41 @@ pub fn tree_strategy(max_depth: usize) -> BoxedStrategy<TreeCase> {
         .boxed()
 }
 
+/// Combs and full trees: hundreds of intermediate nodes that are the LAST kid of their parent (a tail descent) each
+/// followed by a return to pending siblings further up — state an iterator carries across sub-trees shows here.
+pub fn comb_strategy() -> BoxedStrategy<TreeCase> {
+    let chapter = |inner: usize| -> Node {
+        // chapter -> [page?] section -> page(s): the section is the chapter's last kid
+        let mut n = Node::Pages(vec![Node::Page], false);
+        for _ in 0..inner {
+            n = Node::Pages(vec![n], false);
+        }
+        n
+    };
+    let comb = (257usize..340, 0usize..3, any::<bool>(), any::<u64>(), 0u8..4).prop_map(move |(chapters, inner, lead_page, numbering_seed, extra)| {
+        let kids: Vec<Node> = (0..chapters)
+            .map(|_| {
+                let mut k = vec![];
+                if lead_page {
+                    k.push(Node::Page);
+                }
+                k.push(chapter(inner + 1));
+                Node::Pages(k, false)
+            })
+            .collect();
+        TreeCase { root: Node::Pages(kids, false), numbering_seed, extra }
+    });
+    fn full(depth: usize) -> Node {
+        if depth == 0 {
+            Node::Page
+        } else {
+            Node::Pages(vec![full(depth - 1), full(depth - 1)], false)
+        }
+    }
+    let binary = (8usize..=10, any::<u64>(), 0u8..4).prop_map(|(d, numbering_seed, extra)| TreeCase { root: full(d), numbering_seed, extra });
+    prop_oneof![3 => comb, 1 => binary].boxed()
+}
+
 pub fn malform_strategy() -> BoxedStrategy<Malform> {
     let count = prop_oneof![Just(-1i64), Just(0), Just(1 << 62), Just(i64::MAX), Just(i64::MIN), Just(1 << 32), Just(1_000_000), -5i64..50];
     prop_oneof![
@@ -510,11 +545,12 @@ pub fn malform_strategy() -> BoxedStrategy<Malform> {
 
 pub fn run(run: &mut Run) {
     let max_depth = if run.tier == crate::engine::Tier::Thorough { 255 } else { 60 };
-    run.rule = format!("well-formed: page trees built as a spine of 1..{} nested Pages nodes with random small sub-trees (fan-out 0..4, empty intermediate nodes, pages and nodes interleaved) before and after the spine child at every level, Kids direct or behind a reference, object numbers a pseudo-random injection (page ids out of page order, gaps); oracle: page_iter() = own recursive depth-first traversal, get_pages() numbered 1..n in that order, size_hint consistent. malformed: the same trees with 1..4 malformations (kid cycles / shared kids, non-dictionary kids, missing or wrong Type, dangling kids, negative/huge/wrong Count, Kids not an array, catalog pointing at an inner node) run in the isolated worker; oracle: enumeration terminates without panic/overflow/oversized allocation, yields only /Type /Page dictionaries, get_pages numbered 1..n. non-trivial = depth >= 3 and (an empty intermediate node or Kids behind a reference) / >= 1 malformation at depth >= 2.", max_depth);
+    run.rule = format!("well-formed: page trees built as a spine of 1..{} nested Pages nodes with random small sub-trees (fan-out 0..4, empty intermediate nodes, pages and nodes interleaved) before and after the spine child at every level, Kids direct or behind a reference, object numbers a pseudo-random injection (page ids out of page order, gaps); oracle: page_iter() = own recursive depth-first traversal, get_pages() numbered 1..n in that order, size_hint consistent. Campaign 'combs-and-full-trees': 257..340 chapters each ending in a nested last-kid node, and complete binary trees of depth 8..10 (state carried across sub-trees). malformed: the same trees with 1..4 malformations (kid cycles / shared kids, non-dictionary kids, missing or wrong Type, dangling kids, negative/huge/wrong Count, Kids not an array, catalog pointing at an inner node) run in the isolated worker; oracle: enumeration terminates without panic/overflow/oversized allocation, yields only /Type /Page dictionaries, get_pages numbered 1..n. non-trivial = depth >= 3 and (an empty intermediate node or Kids behind a reference) / >= 1 malformation at depth >= 2.", max_depth);
     run.assumptions = vec!["depth up to 255 pending sibling lists is the documented limit (PAGE_TREE_DEPTH_LIMIT)".into()];
     run.replay_known_demos(replay);
     let n = run.tier.pick(8_000, 300_000);
     run.campaign("depth-first-order", || tree_strategy(max_depth), n, check, |_c, _v| None);
+    run.campaign("combs-and-full-trees", comb_strategy, run.tier.pick(60, 1_500), check, |_c, _v| None);
     let nm = run.tier.pick(8_000, 300_000);
     run.campaign(
         "malformed-trees",
